@@ -231,6 +231,10 @@ package qbft
 //@ callreq createMsg: forall(k, 0, len(justification), (justification[k].(Msg).Value() == [32]byte{} || has(values, justification[k].(Msg).Value())) && (justification[k].(Msg).PreparedValue() == [32]byte{} || has(values, justification[k].(Msg).PreparedValue())))
 //@ callreq t.broadcaster.Broadcast: a2 == msg.ToConsensusMsg() && ncalls(createMsg) == 1
 //@ ensures result == nil ==> ncalls(t.broadcaster.Broadcast) == 1 && ncalls(createMsg) == 1
+// broadcasting never drops a recorded value (whatever the message type)
+//@ ensures forallk(h, old(t.values), has(t.values, h))
+//@ loop 1 invariant forallk(h, old(t.values), has(t.values, h))
+//@ loop 2 invariant forallk(h, old(t.values), has(t.values, h))
 //@ loop 1 invariant len(hashes) == 2 + 2*$i && hashes[0] == valueHash && hashes[1] == pvHash && ncalls(createMsg) == 0
 //@ loop 1 invariant forall(k, 0, $i, hashes[2+2*k] == justification[k].(Msg).Value() && hashes[3+2*k] == justification[k].(Msg).PreparedValue())
 //@ loop 2 invariant forall(j, 0, $i, hashes[j] == [32]byte{} || has(values, hashes[j])) && ncalls(createMsg) == 0 && len(hashes) == 2 + 2*len(justification) && hashes[0] == valueHash && hashes[1] == pvHash
@@ -256,6 +260,9 @@ package qbft
 //@ assigns t.values
 //@ callreq anypb.New: a1 == pair.Value
 //@ ensures r1 == nil ==> has(t.values, hash) && r0 == t.values[hash]
+// the table of an instance only grows: a value once recorded stays available (a later round's leader may have to
+// re-propose a value it learned rounds ago)
+//@ ensures forallk(h, old(t.values), has(t.values, h))
 //@ ensures ncalls(anypb.New) <= 1
 
 
